@@ -152,6 +152,8 @@ def case_strategy(draw):
         "suffix": draw(st.integers(1, 3)),
         "no_compile": draw(st.booleans()),
         "out": out,
+        # the same source may be named more than once (rdump a b a): it is read each time
+        "repeats": draw(st.lists(st.tuples(st.integers(0, 5), st.integers(0, nfiles - 1)), max_size=2)) if draw(st.integers(0, 3)) == 0 else [],
     }
 
 
@@ -255,6 +257,12 @@ def make_sources(case, tmp):
             recs = recs[:k]
         paths.append(p)
         expected.append(recs)
+    originals = list(zip(paths, expected))
+    pairs = list(originals)
+    for pos, idx in case.get("repeats", []):
+        src = originals[idx % len(originals)]
+        pairs.insert(min(pos, len(pairs)), (src[0], list(src[1])))
+    paths, expected = [p_ for p_, _ in pairs], [e for _, e in pairs]
     return paths, expected
 
 
@@ -426,7 +434,8 @@ def check(case, ctx, subprocess_mode=False):
         if subprocess_mode:
             env = dict(os.environ, PYTHONPATH=REPO)
             stdin_f = None
-            if case["sources"][0]["kind"] in ("good", "good.gz", "truncated", "damaged-exttype", "damaged-subtype", "joined"):
+            if not case.get("repeats") and case["sources"][0]["kind"] in ("good", "good.gz", "truncated", "damaged-exttype",
+                                                                          "damaged-subtype", "joined"):
                 # the first source arrives on standard input (codec and container are sniffed from the pipe)
                 stdin_f = open(paths[0], "rb")
                 argv[0] = "-"
